@@ -33,3 +33,163 @@ pub fn point(name: &'static str) {
         });
     }
 }
+
+/// Process-wide *async* gates: pause points for code that runs as a task on a shared
+/// runtime, where a thread-local callback cannot identify the task and blocking the
+/// worker thread would also block the tasks queued behind it.
+///
+/// `gate::pass("name").await` returns immediately unless the harness armed `"name"`;
+/// an armed gate parks every arriving task until the harness hands out a permit
+/// ([`release`]) or disarms the gate.
+pub mod gate {
+    use std::{
+        collections::BTreeMap,
+        future::Future,
+        pin::Pin,
+        sync::Mutex,
+        task::{Context, Poll, Waker},
+    };
+
+    #[derive(Default)]
+    struct GateState {
+        armed: bool,
+        permits: usize,
+        parked: usize,
+        wakers: Vec<Waker>,
+    }
+
+    static GATES: Mutex<BTreeMap<&'static str, GateState>> = Mutex::new(BTreeMap::new());
+
+    fn with<R>(name: &'static str, f: impl FnOnce(&mut GateState) -> R) -> R {
+        let mut gates = GATES.lock().expect("poisoned");
+        f(gates.entry(name).or_default())
+    }
+
+    /// Arms the gate: tasks arriving from now on park until released.
+    pub fn arm(name: &'static str) {
+        with(name, |g| g.armed = true);
+    }
+
+    /// Disarms the gate, drops unused permits and lets every parked task continue.
+    pub fn disarm(name: &'static str) {
+        let wakers = with(name, |g| {
+            g.armed = false;
+            g.permits = 0;
+            std::mem::take(&mut g.wakers)
+        });
+        wakers.into_iter().for_each(Waker::wake);
+    }
+
+    /// Lets one task (parked now, or the next to arrive) through the armed gate.
+    pub fn release(name: &'static str) {
+        let wakers = with(name, |g| {
+            g.permits += 1;
+            std::mem::take(&mut g.wakers)
+        });
+        wakers.into_iter().for_each(Waker::wake);
+    }
+
+    /// Number of tasks currently parked at the gate.
+    pub fn parked(name: &'static str) -> usize {
+        with(name, |g| g.parked)
+    }
+
+    /// The pause point: no-op unless the gate is armed.
+    pub fn pass(name: &'static str) -> Pass {
+        Pass {
+            name,
+            parked: false,
+        }
+    }
+
+    /// Future returned by [`pass`].
+    #[derive(Debug)]
+    pub struct Pass {
+        name: &'static str,
+        parked: bool,
+    }
+
+    impl Future for Pass {
+        type Output = ();
+
+        fn poll(mut self: Pin<&mut Self>, cx: &mut Context<'_>) -> Poll<()> {
+            let name = self.name;
+            let was_parked = self.parked;
+            let ready = with(name, |g| {
+                if !g.armed {
+                    if was_parked {
+                        g.parked -= 1;
+                    }
+                    return true;
+                }
+                if g.permits > 0 {
+                    g.permits -= 1;
+                    if was_parked {
+                        g.parked -= 1;
+                    }
+                    return true;
+                }
+                if !was_parked {
+                    g.parked += 1;
+                }
+                g.wakers.push(cx.waker().clone());
+                false
+            });
+            if ready {
+                self.parked = false;
+                Poll::Ready(())
+            } else {
+                self.parked = true;
+                Poll::Pending
+            }
+        }
+    }
+
+    impl Drop for Pass {
+        fn drop(&mut self) {
+            if self.parked {
+                with(self.name, |g| g.parked -= 1);
+            }
+        }
+    }
+}
+
+/// Process-wide event trace: library code under `cfg(iroh_verif)` records the decisions it
+/// takes (in real-time order), the harness reads them back.  Off unless enabled.
+pub mod trace {
+    use std::sync::{
+        Mutex,
+        atomic::{AtomicBool, Ordering},
+    };
+
+    static ENABLED: AtomicBool = AtomicBool::new(false);
+    static EVENTS: Mutex<Vec<String>> = Mutex::new(Vec::new());
+
+    /// Turns recording on or off.
+    pub fn enable(on: bool) {
+        ENABLED.store(on, Ordering::SeqCst);
+    }
+
+    /// Records one event (when enabled).
+    pub fn event(e: impl FnOnce() -> String) {
+        if ENABLED.load(Ordering::SeqCst) {
+            EVENTS.lock().expect("poisoned").push(e());
+        }
+    }
+
+    /// Number of events recorded so far.
+    pub fn len() -> usize {
+        EVENTS.lock().expect("poisoned").len()
+    }
+
+    /// The events recorded from index `from` on.
+    pub fn since(from: usize) -> Vec<String> {
+        let ev = EVENTS.lock().expect("poisoned");
+        ev.get(from..).map(<[String]>::to_vec).unwrap_or_default()
+    }
+
+    /// Forgets all events.
+    pub fn clear() {
+        EVENTS.lock().expect("poisoned").clear();
+    }
+}
